@@ -6,6 +6,7 @@ import (
 	"strconv"
 	"strings"
 	"testing"
+	"unicode/utf8"
 
 	exserver "github.com/cybergarage/go-redis/examples/go-redisd/server"
 	"github.com/cybergarage/go-redis/redis/glob"
@@ -37,6 +38,33 @@ func evalC17Pair(c c17Pair) (fl *Failure) {
 	want := model.GlobMatch(c.Pattern, c.Key)
 	if got := g.MatchString(c.Key); got != want {
 		return failf("c17|match", "glob %q on key %q: MatchString = %v, glob semantics say %v", c.Pattern, c.Key, got, want)
+	}
+	return nil
+}
+
+// c17Binary: patterns and keys that are arbitrary byte strings (not valid UTF-8): compiling never fails or panics;
+// the match result is compared only when both are valid UTF-8.
+type c17Binary struct {
+	Pattern resp.Bin `json:"pattern"`
+	Key     resp.Bin `json:"key"`
+}
+
+func evalC17Binary(c c17Binary) (fl *Failure) {
+	defer func() {
+		if r := recover(); r != nil {
+			fl = failf("c17|panic", "glob.Compile / MustCompile(%q) / MatchString(%q) panicked: %v", []byte(c.Pattern), []byte(c.Key), r)
+		}
+	}()
+	g, err := glob.Compile(string(c.Pattern))
+	if err != nil {
+		return failf("c17|compile", "glob.Compile(%q) failed: %v", []byte(c.Pattern), err)
+	}
+	got := g.MatchString(string(c.Key))
+	glob.MustCompile(string(c.Pattern)).MatchString(string(c.Key))
+	if utf8.Valid(c.Pattern) && utf8.Valid(c.Key) {
+		if want := model.GlobMatch(string(c.Pattern), string(c.Key)); got != want {
+			return failf("c17|match", "glob %q on key %q: MatchString = %v, glob semantics say %v", []byte(c.Pattern), []byte(c.Key), got, want)
+		}
 	}
 	return nil
 }
@@ -139,6 +167,7 @@ func diffStrings(a, b []string) []string {
 func init() {
 	register("c17.pair", evalC17Pair)
 	register("c17.server", evalC17Server)
+	register("c17.binary", evalC17Binary)
 }
 
 var c17Alpha = []byte{'a', 'b', '*', '?', '.', '+', '(', '|', '$'}
@@ -162,7 +191,7 @@ func allStrings(alpha []byte, maxLen int) []string {
 func TestC17(t *testing.T) {
 	h := newHarness(t, "C17", "COMPLETE enumeration of patterns x keys over the alphabet {a,b,*,?,.,+,(,|,$}: quick = patterns up to length 3 x keys up to length 4, thorough = up to 5 x 5 (sharded by pattern); "+
 		"random longer patterns/keys over that alphabet plus ) ^ { } space newline and non-ASCII letters; and at server level a populated example store where KEYS p must return exactly the reference-selected keys and SCAN 0 MATCH p COUNT n+1 the same set, also with 100..4099 additional keys (around 1024 and 2048). "+
-		"Oracle: a direct recursive glob matcher ('*' any sequence, '?' one character, everything else literal). [ ] and \\ are not generated (Redis gives them a meaning the property does not mention). "+
+		"Oracle: a direct recursive glob matcher ('*' any sequence, '?' one character, everything else literal). [ ] and \\ are not generated (Redis gives them a meaning the property does not mention). Patterns and keys that are not valid UTF-8 (lone high bytes, characters cut short, control bytes): compiling must neither fail nor panic (the match result is not compared for them). "+
 		"Non-trivial: the pattern contains a regular-expression metacharacter, or the key does and the pattern has a wildcard. Distinct = distinct (pattern, key).")
 	defer h.Finish()
 	h.Probes()
@@ -224,7 +253,7 @@ enum:
 	h.Col.Exhaustive(fmt.Sprintf("patterns up to length %d x keys up to length %d over {a,b,*,?,.,+,(,|,$}", pl, kl), complete)
 	_ = hsum
 
-	extra := []string{"a", "b", "*", "?", ".", "+", "(", "|", "$", ")", "^", "{", "}", " ", "\n", "é", "ß", "日", "k", ":", "1"}
+	extra := []string{"a", "b", "*", "?", ".", "+", "(", "|", "$", ")", "^", "{", "}", " ", "\n", "é", "ß", "日", "k", ":", "1", "/", "-", "#"}
 	genStr := func(rt *rapid.T, label string, max int, noWild bool) string {
 		n := rapid.IntRange(0, max).Draw(rt, label+"len")
 		var sb strings.Builder
@@ -259,6 +288,30 @@ enum:
 			h.Col.Sample(c)
 		}
 		h.Fail(rt, "c17.pair", c, evalC17Pair(c))
+	})
+
+	h.Rapid("binary-pairs", h.N(20000, 200000), func(rt *rapid.T) {
+		piece := func(label string) []byte {
+			switch rapid.IntRange(0, 5).Draw(rt, label+"cls") {
+			case 0:
+				return []byte{byte(rapid.IntRange(0x80, 0xff).Draw(rt, label+"hi"))} // a lone byte >= 0x80 is not valid UTF-8
+			case 1:
+				return []byte("\xe6\x97")[:rapid.IntRange(1, 2).Draw(rt, label+"cut")] // a multi-byte character cut short
+			case 2:
+				return []byte{byte(rapid.IntRange(0, 0x1f).Draw(rt, label+"ctl"))}
+			default:
+				return []byte(rapid.SampledFrom(extra).Draw(rt, label))
+			}
+		}
+		var c c17Binary
+		for i, n := 0, rapid.IntRange(1, 6).Draw(rt, "plen"); i < n; i++ {
+			c.Pattern = append(c.Pattern, piece("p")...)
+		}
+		for i, n := 0, rapid.IntRange(0, 6).Draw(rt, "klen"); i < n; i++ {
+			c.Key = append(c.Key, piece("k")...)
+		}
+		h.Col.Case(!utf8.Valid(c.Pattern) || !utf8.Valid(c.Key), append(append([]byte("bin\x00"), c.Pattern...), append([]byte{0}, c.Key...)...), "binary-pair")
+		h.Fail(rt, "c17.binary", c, evalC17Binary(c))
 	})
 
 	h.Rapid("server", h.N(3000, 30000), func(rt *rapid.T) {
